@@ -1,7 +1,7 @@
 // replay for property C15, harness c15_rr_bad_rdata_atomic (family reader)
 // failed check: [C15] a failed record read leaves the read position unchanged
 // location: kani_harness/reader.rs:786:13 in function message::reader::kani_reader::read_rr_at
-// native outcome: thread 'message::reader::kani_reader::kani_concrete_playback_c15_rr_bad_rdata_atomic_1204785350548348043' (14147) panicked at /var/tmp/quandary-verif-2980-77229-pb/kani_harness/reader.rs:786:13:
+// native outcome: thread 'message::reader::kani_reader::kani_concrete_playback_c15_rr_bad_rdata_atomic_1204785350548348043' (29832) panicked at /var/tmp/quandary-verif-15890-79431-pb/kani_harness/reader.rs:786:13:
 //   [C15] a failed record read leaves the read position unchanged
 // re-run: /verif/check C15 --replay /verif/replays/C15/c15_rr_bad_rdata_atomic.4d4f1c2f.rs
 // @replay family=reader harness=c15_rr_bad_rdata_atomic
